@@ -37,6 +37,14 @@ import (
 // This only affects TCP connections, it does not swap the logical database currently
 // being used by the embedded API.
 func (server *SugarDB) SwapDBs(database1, database2 int) {
+	// An embedded caller's swap is atomic with respect to the commands of other clients.
+	server.commandLock.Lock()
+	defer server.commandLock.Unlock()
+	server.swapDBs(database1, database2)
+}
+
+// swapDBs is SwapDBs for a caller that already runs under the command lock (the SWAPDB handler).
+func (server *SugarDB) swapDBs(database1, database2 int) {
 	verifPoint("ks.swapDBs")
 	// If the databases are the same, skip the swap.
 	if database1 == database2 {
@@ -79,6 +87,16 @@ func (server *SugarDB) SwapDBs(database1, database2 int) {
 // Flush flushes all the data from the database at the specified index.
 // When -1 is passed, all the logical databases are cleared.
 func (server *SugarDB) Flush(database int) {
+	// An embedded caller's flush is atomic with respect to the commands of other clients
+	// (a GET could find the key with keysExist and lose it before getValues).
+	server.commandLock.Lock()
+	defer server.commandLock.Unlock()
+	server.flush(database)
+}
+
+// flush is Flush for a caller that already runs under the command lock (the FLUSHDB / FLUSHALL handler)
+// or that has the store to itself (the raft state machine restoring a snapshot).
+func (server *SugarDB) flush(database int) {
 	verifPoint("ks.flush")
 	server.storeLock.Lock()
 	defer server.storeLock.Unlock()
